@@ -115,7 +115,9 @@ def run_tlc(module, cfg, env=None, workers=None, timeout=3600, simulate=None, ex
     r = TLCResult(p.stdout, p.returncode, time.time() - t0)
     if must_pass and not (r.rc == 0 and 'No error has been found' in r.out or
                           (simulate and r.rc == 0)):
-        tail = '\n'.join(r.out.splitlines()[-40:])
+        lines = r.out.splitlines()
+        first = next((i for i, ln in enumerate(lines) if ln.startswith('Error:') or 'Exception' in ln), max(0, len(lines) - 30))
+        tail = '\n'.join(lines[first:first + 14] + ['...'] + lines[-6:])
         raise MachineryError('TLC failed on %s/%s (rc=%s):\n%s' % (module, cfg, r.rc, tail))
     return r
 
